@@ -25,9 +25,16 @@ func Go(site int, f func()) {
 // Async wraps a callback that the standard library will run on a goroutine of its own
 // (context.AfterFunc): the goroutine is adopted as a task when it starts.
 func Async(site int, f func()) func() {
+	// The task id is reserved now, by the registering task, so that ids do not depend on the
+	// order in which the runtime starts the callback goroutines later.
+	var reserved *Task
+	if s := cur.Load(); s != nil && atomic.LoadInt32(&s.stopping) == 0 {
+		reserved = s.newTask("async:"+SiteName(site), site)
+		atomic.StoreInt32(&reserved.state, stUnborn)
+	}
 	return func() {
 		s := cur.Load()
-		if s == nil || atomic.LoadInt32(&s.stopping) == 1 {
+		if s == nil || atomic.LoadInt32(&s.stopping) == 1 || reserved == nil {
 			f()
 			return
 		}
@@ -36,8 +43,7 @@ func Async(site int, f func()) func() {
 			f()
 			return
 		}
-		t := s.newTask("async:"+SiteName(site), site)
-		s.runTask(t, f)
+		s.runTask(reserved, f)
 	}
 }
 
